@@ -178,6 +178,10 @@ class SystemReplayer:
 
         ctx, model = self.ctx, self.model
         rng = ctx.rng
+        # the same model in other units: all local quantities are integers times a power of two (exact sums), tiny and huge ones included
+        from .. import stubs as _stubs
+        self.nreplayed = getattr(self, "nreplayed", 0) + 1
+        _stubs.UNIT = (1.0, 2.0 ** -60, 2.0 ** 40)[self.nreplayed % 3]
         system = System()
         objs = {0: system.origin}
         hist = []
